@@ -376,6 +376,19 @@ func genHashProgram(t *rapid.T) string {
 				}
 			}
 		}
+		if len(parts) >= 3 && rapid.Bool().Draw(t, "partialKeyOrder") {
+			// a zKeyOrder that lists only some of the members (and maybe a name that is not there)
+			var listed []string
+			for _, k := range keys {
+				if strings.Contains(strings.Join(parts, ","), `\"`+k+`\":`) && rapid.IntRange(0, 2).Draw(t, "listed") == 0 {
+					listed = append(listed, `\"`+k+`\"`)
+				}
+			}
+			if rapid.IntRange(0, 3).Draw(t, "ghost") == 0 {
+				listed = append(listed, `\"ghost\"`)
+			}
+			parts = append(parts, `\"zKeyOrder\":[`+strings.Join(listed, ",")+`]`)
+		}
 		b.WriteString("(def d (unjson (raw \"{" + strings.Join(parts, ",") + "}\")))\n(trace (str d)) (trace (keys d)) (trace (raw2str (json d)))\n")
 	}
 	return b.String()
@@ -445,7 +458,7 @@ func genGoStructProgram(t *rapid.T) c20Case {
 }
 
 // ill-typed calls: the error text is part of what must be reproducible
-var c20ArgPool = []string{"1", "-2", "1.5", `"s"`, "[1 2]", "[]", "(hash a: 1)", "nil", "(quote sym)", "(list 1 2)", "true", "(fn [x] x)", "#c", "(raw \"ab\")", "0", "(hash)"}
+var c20ArgPool = []string{"1", "-2", "1.5", `"s"`, "[1 2]", "[]", "(hash a: 1)", "nil", "(quote sym)", "(quote len)", "(quote first)", "(quote hset)", "(quote defmac)", "(quote now)", "[(quote cons) (quote append) (quote aget)]", "(hash len: 1 first: 2 cons: 3 aget: 4)", "(list 1 2)", "true", "(fn [x] x)", "#c", "(raw \"ab\")", "0", "(hash)"}
 
 var c20Excluded = map[string]bool{
 	// explicitly random, time, or pointer-printing; process-global by documentation; or outside world
@@ -497,7 +510,7 @@ func genCallProgram(t *rapid.T, names []string) string {
 func TestC20(t *testing.T) {
 	p := begin(t, "C20")
 	r := p.r
-	r.SetRule("case = program text from one of the families {core: programs of the type-directed generator used for C02; hash: hset/hdel histories over symbol, string and int keys followed by str / json / msgpack / keys / range / hpair / togo / println of the hash and decoding of JSON objects with arbitrary member order; record: a struct declaration with instances, json/msgpack round trips, rejected writes; gostruct: records of the registered Go struct types (nested, embedded, interface fields) with json, togo, _method, _fields, _methods; package: package trees with outside accesses (C18 generator); undeclared-struct: use of a struct name (also names of builtins: first, field) that only another interpreter declares between the runs, declarations of own structs, generated names; call: 1-3 calls of any global or builtin function with 0-3 arguments from a pool of 16 values of all kinds (mostly ill-typed: the ERROR TEXT is the output)}. repeat: the text is run in 6 (thorough 12) fresh interpreters of this process and once more after 6 other interpreters were created and did unrelated work (struct declarations, gensym, decoding, macros, packages): value or error text and all (trace ..) outputs must be identical. processes: the same texts are run in 3 (thorough 5) fresh child processes: same result as in this process, and the captured standard output identical between processes. corpus: every tests/*.zy script is run 3 (thorough 6) times by the real command line tool: identical output and exit status. Non-trivial: the output passes through a hash, record, registry or scope walk (families hash, record, gostruct, package) or is an error text. Distinct by program text.")
+	r.SetRule("case = program text from one of the families {core: programs of the type-directed generator used for C02; hash: hset/hdel histories over symbol, string and int keys followed by str / json / msgpack / keys / range / hpair / togo / println of the hash and decoding of JSON objects with arbitrary member order, with and without a zKeyOrder that lists only some members; record: a struct declaration with instances, json/msgpack round trips, rejected writes; gostruct: records of the registered Go struct types (nested, embedded, interface fields) with json, togo, _method, _fields, _methods; package: package trees with outside accesses (C18 generator); undeclared-struct: use of a struct name (also names of builtins: first, field) that only another interpreter declares between the runs, declarations of own structs, generated names; symbols: symbol numbers and symbol order of the names an interpreter is born with; call: 1-3 calls of any global or builtin function with 0-3 arguments from a pool of 16 values of all kinds (mostly ill-typed: the ERROR TEXT is the output)}. repeat: the text is run in 6 (thorough 12) fresh interpreters of this process and once more after 6 other interpreters were created and did unrelated work (struct declarations, gensym, decoding, macros, packages): value or error text and all (trace ..) outputs must be identical. processes: the same texts are run in 3 (thorough 5) fresh child processes: same result as in this process, and the captured standard output identical between processes. corpus: every tests/*.zy script is run 3 (thorough 6) times by the real command line tool: identical output and exit status. Non-trivial: the output passes through a hash, record, registry or scope walk (families hash, record, gostruct, package) or is an error text. Distinct by program text.")
 	r.Assume("explicitly random, time and pointer-printing functions are excluded by name (random, now, timeit, &, *, deref, _ls, _closdump, typelist, printf with %p / %#v, the display string returned by togo, which is Go's %#v rendering of the struct; corpus scripts timeit.zy and infixMixHashArray.zy which print %#v)", "the Go stack dump that follows the message of a recovered panic in an error text (goroutine ids, addresses) is cut at its marker", "the other interpreters' struct and record names are new in the process for every case (numbered)")
 	scratch := os.Getenv("VERIF_SCRATCH")
 	if scratch == "" {
@@ -514,7 +527,7 @@ func TestC20(t *testing.T) {
 	var forProcsObs []string
 	nProcCases := ev.Scale(240, 24000)
 	p.rapidSub("repeat", ev.Scale(900, 120000), func(t *rapid.T) {
-		fam := rapid.SampledFrom([]string{"core", "hash", "hash", "record", "gostruct", "gostruct", "package", "call", "call", "call", "undeclared-struct"}).Draw(t, "family")
+		fam := rapid.SampledFrom([]string{"core", "hash", "hash", "record", "gostruct", "gostruct", "package", "call", "call", "call", "undeclared-struct", "symbols"}).Draw(t, "family")
 		c := c20Case{Family: fam}
 		switch fam {
 		case "core":
@@ -531,6 +544,25 @@ func TestC20(t *testing.T) {
 			c.Text = pc.text()
 		case "call":
 			c.Text = genCallProgram(t, names)
+		case "symbols":
+			// the identity and order of symbols is observable (symnum, <, hash codes): the names an
+			// interpreter is born with must get the same numbers in every interpreter
+			var b strings.Builder
+			for i := 0; i < rapid.IntRange(1, 4).Draw(t, "nsym"); i++ {
+				a := rapid.SampledFrom(names).Draw(t, "symA")
+				bb := rapid.SampledFrom(names).Draw(t, "symB")
+				switch rapid.IntRange(0, 3).Draw(t, "symk") {
+				case 0:
+					b.WriteString("(trace (symnum (quote " + a + ")))\n")
+				case 1:
+					b.WriteString("(trace (< (quote " + a + ") (quote " + bb + ")))\n")
+				case 2:
+					b.WriteString("(trace (- (symnum (quote " + a + ")) (symnum (quote " + bb + "))))\n")
+				default:
+					b.WriteString("(def fresh" + fmt.Sprint(i) + " 1) (trace (symnum (quote fresh" + fmt.Sprint(i) + ")))\n")
+				}
+			}
+			c.Text = b.String()
 		case "undeclared-struct":
 			// uses a struct that only ANOTHER interpreter declares (between the runs), then declares
 			// structs of its own in a fresh interpreter
